@@ -291,7 +291,10 @@ class Analysis:
             iv = e.get(l, tr)
         else:
             first = True
+            feas = (self.__dict__.get("feasible") or {}).get(f.key)
             for d in f.reaching_defs(l, pos):
+                if feas is not None and d["bb"] not in feas:
+                    continue
                 v = self._eval_def(f, d, env, depth, stack, pair)
                 if first:
                     iv, first = v, False
